@@ -70,9 +70,20 @@ def setAt {α} (l : List α) (i : Nat) (v : α) : List α := l.set i v
 
 /-! ## one atomic cell: Counter / IntCounter / Gauge / IntGauge (C01, C11) -/
 
+def guard {α} (c : Bool) (msg : String) (k : Except String α) : Except String α :=
+  if c then k else .error msg
+
 inductive APc
-  | start (op : String)                  -- call seen, no step yet
-  | cas (cur : UInt64) (d : UInt64)      -- float add: loaded `cur`, next is the compare-exchange to `cur + d`
+  | start                      -- call seen, no step yet (or: a failed compare-exchange sent it back)
+  | cas (cur : UInt64)         -- float add: loaded `cur`, next is the compare-exchange to `cur + delta`
+deriving Repr
+
+/-- one committed operation: thread, call index, the call, the value it returns -/
+structure LinEv where
+  tid : Nat
+  idx : Nat
+  op : String
+  rv : String
 deriving Repr
 
 structure ASt where
@@ -80,7 +91,7 @@ structure ASt where
   counter : Bool
   mem : UInt64 := 0
   ths : List (Th APc)
-  log : List (Nat × UInt64) := []        -- ghost: committed writes (thread, new value), newest first
+  lin : List LinEv := []        -- ghost: the operations in the order in which they took effect
 
 def hexStr (v : UInt64) : String := String.ofList (Nat.toDigits 16 v.toNat)
 
@@ -93,6 +104,60 @@ def floatDelta (op : String) : Option UInt64 :=
   | "sub" => some (f64NegOp (f64OfInt a))
   | _ => none
 
+/-- the integer operand of an integer-flavour add / sub -/
+def intDelta (op : String) : UInt64 :=
+  let n := opName op
+  u64OfInt (if n == "inc" || n == "dec" then 1 else parseIntArg (opArg op))
+
+def isSubOp (op : String) : Bool := opName op == "dec" || opName op == "sub"
+
+/-- **the sequential specification** of one cell: what a call does to the value and what it returns
+    when it runs alone. `none` = not an operation of this flavour. -/
+def specApply (float : Bool) (v : UInt64) (op : String) : Option (UInt64 × String) :=
+  let n := opName op
+  if n == "get" then some (v, hexStr v)
+  else if n == "set" || n == "reset" then
+    let x : Int := if n == "reset" then 0 else parseIntArg (opArg op)
+    some (if float then f64OfInt x else u64OfInt x, "")
+  else if float then (floatDelta op).map fun d => (f64Add v d, "")
+  else some (if isSubOp op then v - intDelta op else v + intDelta op, "")
+
+/-- one accepted event of the call `op`: the new cell value and either the next program counter
+    (`inl`) or the value the call returns (`inr`: the call is complete, it took effect in this step) -/
+def aEv (float : Bool) (mem : UInt64) (op : String) (pc : APc) (e : Ev) : Except String (UInt64 × (APc ⊕ String)) :=
+  if e.loc != "v0" then .error "unknown location" else
+  let n := opName op
+  match pc with
+  | .start =>
+    if n == "get" then
+      guard (e.k == "L" && ordGe e.ord "Relaxed" && e.res == mem) s!"get: expected load Relaxed -> {hexStr mem}" (.ok (mem, .inr (hexStr mem)))
+    else if n == "set" || n == "reset" then
+      let x : Int := if n == "reset" then 0 else parseIntArg (opArg op)
+      let bits := if float then f64OfInt x else u64OfInt x
+      guard (e.k == "S" && ordGe e.ord "Relaxed" && e.a == bits) s!"set: expected store Relaxed {hexStr bits}" (.ok (bits, .inr ""))
+    else if float then
+      match floatDelta op with
+      | none => .error s!"unknown op {op}"
+      | some _ =>
+        guard (e.k == "L" && ordGe e.ord "Acquire" && e.res == mem) s!"float add: expected load Acquire -> {hexStr mem}"
+          (.ok (mem, .inl (.cas mem)))
+    else
+      let want := if isSubOp op then "U" else "A"
+      let newv := if isSubOp op then mem - intDelta op else mem + intDelta op
+      guard (e.k == want && ordGe e.ord "Relaxed" && e.a == intDelta op && e.res == mem)
+        s!"int {n}: expected {want} Relaxed {hexStr (intDelta op)} -> {hexStr mem}" (.ok (newv, .inr ""))
+  | .cas cur =>
+    match floatDelta op with
+    | none => .error s!"unknown op {op}"
+    | some d =>
+      let newv := f64Add cur d
+      guard (float && e.k == "C" && ordGe e.ord "Release" && e.a == cur && e.b == newv) s!"float add: expected cas Release {hexStr cur} -> {hexStr newv}" <|
+        if e.ok then
+          guard (mem == cur && e.res == cur) "cas succeeded although the cell no longer holds the loaded value" (.ok (newv, .inr ""))
+        else
+          -- failure: value changed, or spurious (weak); the loop reloads
+          guard (e.res == mem) "failed cas reports a wrong current value" (.ok (mem, .inl .start))
+
 def aStep (s : ASt) (e : Ev) : Except String ASt :=
   match s.ths[e.tid]? with
   | none => .error "no such thread"
@@ -100,43 +165,13 @@ def aStep (s : ASt) (e : Ev) : Except String ASt :=
     match th.pc with
     | none => .error "event outside a call"
     | some pc =>
-      let fin (mem : UInt64) (rv : String) (logw : Bool) : Except String ASt :=
-        .ok { s with mem := mem, ths := s.ths.set e.tid { th with pc := none, retv := some rv },
-                     log := if logw then (e.tid, mem) :: s.log else s.log }
-      let chk (c : Bool) (msg : String) (k : Except String ASt) : Except String ASt := if c then k else .error msg
-      if e.loc != "v0" then .error "unknown location" else
-      match pc with
-      | .start op =>
-        let n := opName op
-        let a := parseIntArg (opArg op)
-        if n == "get" then
-          chk (e.k == "L" && ordGe e.ord "Relaxed" && e.res == s.mem) s!"get: expected load Relaxed -> {hexStr s.mem}" (fin s.mem (hexStr s.mem) false)
-        else if n == "set" || n == "reset" then
-          let v := if n == "reset" then 0 else a
-          let bits := if s.float then f64OfInt v else u64OfInt v
-          chk (e.k == "S" && ordGe e.ord "Relaxed" && e.a == bits) s!"set: expected store Relaxed {hexStr bits}" (fin bits "" true)
-        else if s.float then
-          match floatDelta op with
-          | none => .error s!"unknown op {op}"
-          | some d =>
-            chk (e.k == "L" && ordGe e.ord "Acquire" && e.res == s.mem) s!"float add: expected load Acquire -> {hexStr s.mem}"
-              (.ok { s with ths := s.ths.set e.tid { th with pc := some (.cas s.mem d) } })
-        else
-          let d : Int := if n == "inc" || n == "dec" then 1 else a
-          let sub := n == "dec" || n == "sub"
-          let want := if sub then "U" else "A"
-          let newv := if sub then s.mem - u64OfInt d else s.mem + u64OfInt d
-          chk (e.k == want && ordGe e.ord "Relaxed" && e.a == u64OfInt d && e.res == s.mem)
-            s!"int {n}: expected {want} Relaxed {hexStr (u64OfInt d)} -> {hexStr s.mem}" (fin newv "" true)
-      | .cas cur d =>
-        let newv := f64Add cur d
-        chk (e.k == "C" && ordGe e.ord "Release" && e.a == cur && e.b == newv) s!"float add: expected cas Release {hexStr cur} -> {hexStr newv}" <|
-          if e.ok then
-            chk (s.mem == cur && e.res == cur) "cas succeeded although the cell no longer holds the loaded value" (fin newv "" true)
-          else
-            -- failure: value changed, or spurious (weak); the loop reloads
-            chk (e.res == s.mem) "failed cas reports a wrong current value"
-              (.ok { s with ths := s.ths.set e.tid { th with pc := some (.start (th.ops.getD th.idx "")) } })
+      let op := th.ops.getD th.idx ""
+      match aEv s.float s.mem op pc e with
+      | .error m => .error m
+      | .ok (mem', .inl pc') => .ok { s with mem := mem', ths := s.ths.set e.tid { th with pc := some pc' } }
+      | .ok (mem', .inr rv) =>
+        .ok { s with mem := mem', ths := s.ths.set e.tid { th with pc := none, retv := some rv },
+                     lin := s.lin ++ [⟨e.tid, th.idx, op, rv⟩] }
 
 /-- call / return marks common to all machines: returns the thread with the call opened / closed -/
 def openCall {Pc} (th : Th Pc) (i op : String) (mk : String → Option Pc) (skip : String → Bool) : Except String (Th Pc) :=
@@ -161,7 +196,7 @@ def aItem (s : ASt) : Item → Except String ASt
     | none => .error "no such thread"
     | some th =>
       -- a local flush of 0 performs no shared step
-      match openCall th i op (fun op => some (.start op)) (fun op => opName op == "lflush" && parseIntArg (opArg op) == 0) with
+      match openCall th i op (fun _ => some .start) (fun op => opName op == "lflush" && parseIntArg (opArg op) == 0) with
       | .ok th' => .ok { s with ths := s.ths.set t th' }
       | .error e => .error e
   | .ret t i v =>
